@@ -220,8 +220,11 @@ func (c *Ctx) mergerClass(fn *ssa.Function) string {
 	}
 	for _, b := range fn.Blocks {
 		for _, in := range b.Instrs {
-			if call, ok := in.(*ssa.Call); ok && strings.HasSuffix(staticName(&call.Call), "slices.Contains") {
-				callsConv["slices.Contains"] = true
+			if call, ok := in.(*ssa.Call); ok {
+				// membership test before the append, by == or by a predicate
+				if sn := staticName(&call.Call); strings.HasSuffix(sn, "slices.Contains") || strings.HasSuffix(sn, "slices.ContainsFunc") {
+					callsConv["slices.Contains"] = true
+				}
 			}
 		}
 	}
@@ -296,7 +299,7 @@ func (c *Ctx) A4(rule string) []report.Obligation {
 				o.Why = "merger replaces the value: nothing is appended"
 			case cls == "self-dedup":
 				o.Status, o.Pos = report.Discharged, row.Pos
-				o.Why = "merger " + row.Func + " filters entries already present (slices.Contains) before appending"
+				o.Why = "merger " + row.Func + " filters entries already present (slices.Contains / ContainsFunc) before appending"
 			default:
 				o.Status = report.Violation
 				o.Why = "schema demands uniqueItems, sequences are appended on merge, and no unicity indexer (nor a mapping-producing merger) is registered: two files repeating an entry fail validation instead of collapsing it"
